@@ -413,6 +413,23 @@ func (x *rtCtxs) fresh() (context.Context, int) {
 	return ctx, x.seq
 }
 
+// freshDone returns a new context that is already done: cancelled (kind 0) or past its deadline (kind 1).
+func (x *rtCtxs) freshDone(kind int) (context.Context, int) {
+	x.seq++
+	base := context.WithValue(context.Background(), rtKey{}, x.seq)
+	var ctx context.Context
+	var cancel context.CancelFunc
+	if kind == 0 {
+		ctx, cancel = context.WithCancel(base)
+		cancel()
+	} else {
+		ctx, cancel = context.WithDeadline(base, time.Unix(1, 0))
+	}
+	x.all = append(x.all, cancel)
+	x.cur, x.cancel, x.curTag = ctx, nil, x.seq
+	return ctx, x.seq
+}
+
 func (x *rtCtxs) cancelAll() {
 	for _, f := range x.all {
 		f()
@@ -462,7 +479,11 @@ func c04Op(w *rtWorld, r interface{ IntN(int) int }, cx *rtCtxs, gen *int, allow
 		return "restart"
 	case k < 8:
 		ctx, tag := cx.fresh()
-		call, ok := w.setContext("d", ctx, r.IntN(2) == 0, fmt.Sprint("new#", tag))
+		if r.IntN(8) == 0 {
+			ctx, tag = cx.freshDone(r.IntN(2))
+			w.c.Count("setcontext_done_context_calls", 1)
+		}
+		call, ok := w.setContext("d", ctx, r.IntN(2) == 0, fmt.Sprint("new#", tag, " done=", ctx.Err() != nil))
 		if ok {
 			w.checkSuperseded(call, "SetContext(new)")
 		}
@@ -703,6 +724,13 @@ func c05Case(c *mon.Case, state, retry, concurrent bool) {
 				if ok {
 					w.checkSuperseded(call, "ClearContext")
 				}
+			case rr.IntN(2) == 0:
+				// a context that is already done: whatever ran under the previous context is superseded, nothing may run under this one
+				kind := rr.IntN(2)
+				ctx, tag := cx.freshDone(kind)
+				rootCancelled.Store(true)
+				c.Count("setcontext_done_context_calls", 1)
+				w.setContext(actor, ctx, rr.IntN(2) == 0, fmt.Sprintf("new#%d(already done, kind %d)", tag, kind))
 			default:
 				if cx.cancel != nil {
 					c.Rec(actor, "cancel root context", nil)
